@@ -199,7 +199,7 @@ func checkC05(c *TypingCase) *Outcome {
 var c05 = Register(&Prop[TypingCase]{ID: "C05", Name: "typing", Gen: genTypingCase, Check: checkC05})
 
 func TestC05(t *testing.T) {
-	R.Rule = "programs built by type-directed construction, 60% of them then changed by one type-breaking mutation from a catalogue of 20 (heterogeneous element / key / value, composite key, duplicate field, unknown field, subscript on non-container, wrong index / key type, arity +-1, undefined / reserved variable, optional for payload, inconsistent type variable, call of non-function, empty-literal mixing, ...); 0-5 additional overloads of one name (mono / poly, overlapping patterns, both field orders of an object parameter, result-only variable) registered in a drawn order; oracle: reference checker verdict and type, Compile verdict on two back ends, and the overload that actually runs (marker values and call trace); non-trivial = a mutant the reference rejects, or an accepted program with a polymorphic instantiation at a composite type or a call resolved among >= 2 candidates"
+	R.Rule = "programs built by type-directed construction, 60% of them then changed by one type-breaking mutation from a catalogue of 20 (heterogeneous element / key / value, composite key, duplicate field, unknown field, subscript on non-container, wrong index / key type, arity +-1, undefined / reserved variable, optional for payload, inconsistent type variable, call of non-function, empty-literal mixing, ...); 0-5 additional overloads of one name (mono / poly, overlapping patterns, both field orders of an object parameter, result-only variable) registered in a drawn order, one set in four with one polymorphic function value registered a second time; oracle: reference checker verdict and type, Compile verdict on two back ends, and the overload that actually runs (marker values and call trace); non-trivial = a mutant the reference rejects, or an accepted program with a polymorphic instantiation at a composite type or a call resolved among >= 2 candidates"
 	R.Assume = []string{"ref.Check encodes the typing rules of the property statement; the built-in table is cross-checked against fun.BuiltIn() on every run"}
 	reportKnown(t, "C05")
 	runRegress(t, "C05")
